@@ -122,10 +122,99 @@ impl GlobalDataArc {
     }
 }
 
-/// the part of the session data <send>/<cancel> touch directly
+/// the part of the session data <send>/<cancel>/<invoke> touch directly
 pub struct GlobalData {
     /// send id -> timer guard of the not yet delivered delayed sends
     pub delayed_send: HashMap<String, Guard>,
+    pub session_id: SessionId,
+    pub actions: ActionWrapper,
+    pub executor: Option<Box<FsmExecutor>>,
+    /// invoke id -> child session started by an <invoke> of this session
+    pub child_sessions: HashMap<InvokeId, ScxmlSession>,
+}
+
+pub type StateId = u32;
+pub type DocumentId = u32;
+
+/// the host's custom actions (copied into a child session)
+#[verifier::external_body]
+pub struct ActionWrapper {
+    _p: (),
+}
+
+impl ActionWrapper {
+    #[verifier::external_body]
+    pub fn get_copy(&self) -> (r: ActionWrapper) {
+        unimplemented!()
+    }
+}
+
+/// one request to the executor to start a child session (ghost)
+pub struct Start {
+    /// true: the document text was given inline (<content>), false: a source URI (src / srcexpr)
+    pub inline: bool,
+    pub source: Seq<char>,
+    pub data: Seq<ParamPair>,
+    pub parent: Option<SessionId>,
+    pub invoke_id: String,
+}
+
+// TRUSTED stand-in: the executor that parses the child document and starts its session thread (threads, XML reader)
+#[verifier::external_body]
+pub struct FsmExecutor {
+    _p: (),
+}
+
+impl FsmExecutor {
+    pub uninterp spec fn started(&self) -> Seq<Start>;
+
+    #[verifier::external_body]
+    pub fn execute_with_data_from_xml(&mut self, xml: &str, actions: ActionWrapper, data: &[ParamPair], parent: Option<SessionId>, invoke_id: &InvokeId, finish_mode: FinishMode) -> (r: Result<ScxmlSession, String>)
+        ensures
+            final(self).started() == old(self).started().push(Start { inline: true, source: xml@, data: data@, parent: parent, invoke_id: *invoke_id }),
+    {
+        unimplemented!()
+    }
+
+    #[verifier::external_body]
+    pub fn execute_with_data(&mut self, uri: &str, actions: ActionWrapper, data: &[ParamPair], parent: Option<SessionId>, invoke_id: &InvokeId) -> (r: Result<ScxmlSession, String>)
+        ensures
+            final(self).started() == old(self).started().push(Start { inline: false, source: uri@, data: data@, parent: parent, invoke_id: *invoke_id }),
+    {
+        unimplemented!()
+    }
+}
+
+/// R19: `global.executor.as_mut().unwrap()`: panics when the session has no executor
+#[verifier::external_body]
+pub fn verif_executor(e: &mut Option<Box<FsmExecutor>>) -> (r: &mut FsmExecutor)
+    requires
+        old(e).is_some(),
+    ensures
+        *r == *old(e).unwrap(),
+        final(e).is_some(),
+        *final(e).unwrap() == *final(r),
+{
+    unimplemented!()
+}
+
+/// R19: the type test of <invoke>: `type_name.eq(SHORT)`, `type_name.is_empty() || (type_name.starts_with(LONG) && type_name.len() <= LONG.len() + 1)`
+pub uninterp spec fn scxml_invoke_type(t: Seq<char>) -> bool;
+
+#[verifier::external_body]
+pub fn verif_is_scxml_invoke_type(type_name: &String) -> (r: bool)
+    ensures
+        r == scxml_invoke_type(type_name@),
+{
+    unimplemented!()
+}
+
+#[verifier::external_body]
+pub fn verif_string_is(s: &String, lit: &str) -> (r: bool)
+    ensures
+        r == (s@ == lit@),
+{
+    unimplemented!()
 }
 
 /// R19: the closure handed to the timer
